@@ -38,8 +38,8 @@ PROPS = {
               "parallel line arrays grow and move together (G1).",
               "byte-for-byte equality of read-then-write (needs contents); line re-termination and "
               "sbuf capacity are decided under C05 (B3/B4)."),
-    "C02": _p(["W6", "S1", "S2", "S3", "N2", "W3", "W4"],
-              "the saved mark moves only in lbuf_saved (or to 'always dirty' in lbuf_unsaved), the "
+    "C02": _p(["W6", "S1", "S2", "S3", "N2", "W3", "W4", "N7"],
+              "opening a new buffer recycles the slot bufs_findroom() picks only past a clean verdict of bufs_modified() for that very slot or a '!'/xwa bypass, the dirty edge failing the command (N7); the saved mark moves only in lbuf_saved (or to 'always dirty' in lbuf_unsaved), the "
               "dirty test is `seq of undo position != saved seq`, lbuf_saved bumps afterwards (S1); "
               "every top-level command bumps the command counter (S2); in ec_write the saved mark, "
               "mtime and rename happen only after lbuf_save's success edge, for the buffer's own "
@@ -71,8 +71,8 @@ PROPS = {
     "C05": _p(["B1", "B2", "B3", "B4", "B5", "B6", "B7", "B9", "B10", "B11", "P1", "N2", "X2", "L2", "L4", "I1", "B12", "B13", "P2"],
               "every index into the saved-mark arrays of an undo record fits the smallest allocation of that array, loop bounds included (B12); functions handed (buffer, length) pairs keep every store, memcpy and snprintf within the length, given that every call site passes at most the array it owns (B13); no local keeps the current-buffer pointer across a call that can switch or free buffers (P2); the bounded-write clauses named in the anchors, each by a linear proof from the dominating guards (Fourier-Motzkin over the AST's conditions, for all values): writes into fixed arrays at the frozen guard-bounded sites - recording, push-back, repeat, tag stack, auto-indent, vi key stack (B1, guard must be in element units); every strcpy/strcat/sprintf into a fixed array against an interprocedural string-length bound, every snprintf size against its array (B2); every write through a freshly malloc'ed block against the allocation size, incl. line re-termination and the growth copies under the declared struct invariants (B3, I1); the string buffer keeps s_n + written + 1 <= s_sz for allocated and fresh buffers (B4); the 512-byte command gate dominates the three part copies and the copiers write at most one byte per byte read (B5); matcher out-arrays hold 2n ints and the \\\\digit index stays inside (B6); table-bounded loops fit their arrays (B7); every lbuf_get / reg_get result is null-tested, index-proved or given only to null-tolerant callees (B9, B10); the unchecked per-line mark accessors get 0 <= i < lbuf_len (B11); register text is not used across a call that can free it (P1); a successful address resolution is a range inside the buffer (X2); the literal matcher defines all group slots and never looks before the line (L2, L4).",
               "absence of all memory errors (indices that are matcher offsets, permutation values or display columns are named exceptions listed in the evidence notes), termination / bounded time, and the %d-only sprintf calls into the small terminal buffers (width depends on window geometry)."),
-    "C06": _p(["X1", "X2", "X3", "X4", "X5", "G3", "U1", "X6", "G7"],
-              "the shift of the numbered registers runs down to the register that receives the new text (G7); a write() that sends `total - done` bytes starts at `buf + done` (X6: the filter pipe resumes a partial write where it stopped); all 14 ex_region call sites test the result and the fail edge reaches only failing "
+    "C06": _p(["X1", "X2", "X3", "X4", "X5", "G3", "U1", "X6", "G7", "X7"],
+              "append splices at (end, end), insert at (beg, beg) and change at (beg, end) of the range ex_region validated, on every path to the splice classified by the command letter it tested (X7); the shift of the numbered registers runs down to the register that receives the new text (G7); a write() that sends `total - done` bytes starts at `buf + done` (X6: the filter pipe resumes a partial write where it stopped); all 14 ex_region call sites test the result and the fail edge reaches only failing "
               "returns with no effect on buffer, registers, marks or current line (address 0 "
               "tolerated only for a/i/c with both bounds 0) (X1); every path of ex_region to "
               "`return 0` establishes 0 <= beg <= end <= $ by the linear prover (X2); handlers "
@@ -127,8 +127,8 @@ PROPS = {
               "unmarked); depth counter and leftover marks are restored on every exit, marking "
               "covers (beg,end), set/get use one bit and get clears it (G2).",
               "the visiting order and once-ness as such (follows from G1+G2, argued not mechanised)."),
-    "C20": _p(["N1", "N2", "N3", "N4", "N5", "N6", "S3", "G5", "G6", "P2"],
-              "lookups of an open buffer by path or number scan all 16 slots (G5); the counter that hands out buffer numbers only grows, or is reset together with a renumbering of every live buffer (G6); the undo group after a command line is closed on the buffer that is current afterwards, and no local keeps the current-buffer pointer across a call that can switch buffers (P2); only the bufs_* helpers (plus the three named slot-0 stores) write the buffer "
+    "C20": _p(["N1", "N2", "N3", "N4", "N5", "N6", "S3", "G5", "G6", "P2", "N7"],
+              "opening a new buffer recycles the slot bufs_findroom() picks only past a clean verdict of bufs_modified() for that very slot or a '!'/xwa bypass, the dirty edge failing the command (N7); lookups of an open buffer by path or number scan all 16 slots (G5); the counter that hands out buffer numbers only grows, or is reset together with a renumbering of every live buffer (G6); the undo group after a command line is closed on the buffer that is current afterwards, and no local keeps the current-buffer pointer across a call that can switch buffers (P2); only the bufs_* helpers (plus the three named slot-0 stores) write the buffer "
               "table (N1); every bufs_switch argument is proved within [0,15] from interval "
               "summaries of bufs_find/bufs_findroom/bufs_open and dominating tests, block moves "
               "stay inside the table (N2); ec_edit never reaches lbuf_rd after finding the path "
